@@ -224,6 +224,9 @@ func (e *exec) build() {
 	}
 	e.restoreInside()
 	cwd := filepath.Join(top, e.cwdRel)
+	if e.variant == "noexist" && e.sb.underRoot(cwd) {
+		cwd = top // the root must not exist: the working directory cannot be inside it
+	}
 	must(os.MkdirAll(cwd, 0o755))
 	must(os.Chdir(cwd))
 	e.sb.snap = nil
